@@ -55,7 +55,9 @@ def ops(state):
         for v in list(VALS) + ['NODE']:
             yield ('set', k, v)
         for k2 in KEYS:
-            if k2 != k and k2 not in present:
+            # renaming to a *different* existing key would create duplicate keys (outside the domain);
+            # renaming a key to itself is a no-op on an ordered dictionary
+            if k2 == k or k2 not in present:
                 yield ('rename', k, k2)
         for t in TYPES:
             yield ('hastype', k, t)
